@@ -91,6 +91,46 @@ def main():
         vv, rr = tracecheck.run("TraceRetarget", [e], rc, ids=[1])
         f = tlc.tagged(rr, "FINDING")
         results.append(("TraceRetarget", name, f[0][1] if f else "ok"))
+    # ---- TraceStoreLock (a forced two-writer schedule on a real store)
+    from harness import store_drv
+    from checks import store as S
+    w_, g_, blocks_ = S.build(cfg, keys, S.universes()["clean"], tag=b"bind")
+    run_ = store_drv.StoreRun(w_, g_)
+    try:
+        run_.buffer(blocks_[1])
+        run_.flush_with_concurrent_flush(blocks_[2])
+        good_l = dict(run_.lock_traces[0], id=1)
+    finally:
+        run_.close()
+    lc = {"Writers": {1, 2}, "Blocks": set(), "LockScope": "whole", "MaxFlushes": 99, "Prop": "C08"}
+    vv, rr = tracecheck.run("TraceStoreLock", [good_l], lc, ids=[1])
+    assert vv[1][0] == "ok", vv
+    for name, fn in (("a block missing on disk at the end", lambda t: t["disk_end"].pop()),
+                     ("a writer reported an SQL error", lambda t: t["errors"].append("second writer: OperationalError")),
+                     ("a block on disk that was never handed over", lambda t: t["disk_end"].append(77))):
+        t = copy.deepcopy(good_l)
+        fn(t)
+        vv, rr = tracecheck.run("TraceStoreLock", [t], lc, ids=[1])
+        results.append(("TraceStoreLock", name, vv[1][0]))
+    # ---- TraceHandover (outcome of a two-thread schedule)
+    hist = [{"t": "net", "a": a_} for a_ in ("N1", "N3", "N5", "R1", "R2")] + [{"t": "miner", "a": a_} for a_ in ("M1", "M4", "M5", "M6", "M7", "M8")]
+    good_h = {"id": 1, "hist": hist, "feasible": True, "errors": [],
+              "out": {"x_on_disk": False, "b_on_disk": True, "x_served": False, "b_served": True, "b_bcast": True, "x_bcast": False, "buffer": 0}}
+    hc = {"XValid": False, "XValidated": True, "MinerOn": True, "SaveAfterValidation": True, "SelectiveClear": True, "AtomicRollback": True}
+
+    def h_run(t):
+        vv_, rr_ = tracecheck.run("TraceHandover", [t], hc, ids=[1])
+        f_ = tlc.tagged(rr_, "FINDING")
+        return f_[0][2] if f_ else ("DRIFT" if tlc.tagged(rr_, "DRIFT") else "ok")
+    assert h_run(good_h) == "ok", h_run(good_h)
+    for name, fn in (("found block not on disk", lambda t: t["out"].__setitem__("b_on_disk", False)),
+                     ("rejected block on disk", lambda t: t["out"].__setitem__("x_on_disk", True)),
+                     ("rejected block served", lambda t: t["out"].__setitem__("x_served", True)),
+                     ("found block not broadcast", lambda t: t["out"].__setitem__("b_bcast", False)),
+                     ("found block not served (M layer)", lambda t: t["out"].__setitem__("b_served", False))):
+        t = copy.deepcopy(good_h)
+        fn(t)
+        results.append(("TraceHandover", name, h_run(t)))
     bad = [x for x in results if x[2] in ("ok", "inconclusive")]
     for x in results:
         print("%-14s %-55s -> %s" % x)
